@@ -24,27 +24,38 @@ def decFEntry (w : W) : Option FEntry :=
            obsAns := ← oa.bool?, obsSize := ← os.bool? }
   | _ => none
 
-def decTruth (w : W) : Option (List (Int × Int × Nat)) := do
+/-- `(idx listID rid)` or `(idx listID rid status)`; `status` = what `preparePattern` returns on a fresh
+    object of that rule: 0 (matches anything, nothing stored), 1 (compiled), 2 (invalid); default 0. -/
+def decTruth (w : W) : Option (List (Int × Int × Nat × Nat)) := do
   let xs ← w.list?
   xs.mapM fun e => match e with
-    | .l [i, l, r] => do pure (← i.int?, ← l.int?, ← r.nat?)
+    | .l [i, l, r] => do pure (← i.int?, ← l.int?, ← r.nat?, 0)
+    | .l [i, l, r, c] => do pure (← i.int?, ← l.int?, ← r.nat?, ← c.nat?)
     | _ => none
 
 /-- Key of entry `k`: the request's hostname carries the entry number, so that the candidate function and
     `matches` of the driver's `Env` are functions of the request, as in the model. -/
 def entryKey (k : Nat) : Bytes := (Nat.toDigits 10 k).map (fun c => c.toNat.toUInt8)
 
-def fEnv (truth : List (Int × Int × Nat)) (entries : List FEntry) : Env Nat :=
+/-- The `Env` of a trace.  Every entry is one loop over storage candidates (the harness observes first
+    occurrences only, so they are filed as domains-table candidates: no `ruleIn`) followed by the in-memory
+    rules; the hosts-table stage of a DNS query is a separate entry, so `basic` always stops the query. -/
+def fEnv (truth : List (Int × Int × Nat × Nat)) (entries : List FEntry) : Env Nat Unit :=
   let keyed := (List.range entries.length).zip entries |>.map fun (k, e) => (entryKey k, e)
   let find (req : Request) : Option FEntry := (keyed.find? (fun p => p.1 == req.hostname)).map (·.2)
-  { truth := fun idx => (truth.find? (fun e => e.1 == idx)).map (fun e => e.2.2)
+  let status (r : Nat) : Nat := match truth.find? (fun e => e.2.2.1 == r) with | some e => e.2.2.2 | none => 0
+  { truth := fun idx => (truth.find? (fun e => e.1 == idx)).map (fun e => e.2.2.1)
     listOf := fun idx => match truth.find? (fun e => e.1 == idx) with | some e => e.2.1 | none => 0
-    ruleId := id
     etld1 := id
-    cands := fun req => match find req with | some e => e.cands | none => []
-    mtch := fun r req => match find req with
+    cands := fun req => match find req with | some e => e.cands.map (fun i => (false, i)) | none => []
+    hcands := fun _ => []
+    basic := fun _ => true
+    wants := fun _ _ => true
+    pre := fun r req => match find req with
       | some e => e.matching.contains r || e.resident.contains r
       | none => false
+    compile := fun r => match status r with | 0 => .any | 1 => .re () | _ => .bad
+    accepts := fun _ _ _ => true
     resident := (entries.flatMap (·.resident)).eraseDups }
 
 /-- Answers are compared as sets (DESIGN.md §6): sorted, duplicates removed. -/
@@ -62,25 +73,25 @@ def opProgModel (withSpec : Bool) (args : List W) : String :=
       | none => "bad-entry"
       | some entries =>
         let env := fEnv truth entries
-        let go := fun (acc : State Nat × List String) (ke : Nat × FEntry) =>
+        let go := fun (acc : State Nat Unit × List String) (ke : Nat × FEntry) =>
           let (k, e) := ke
           let s := acc.1
           let s := if (k : Int) == closeAt then { s with closed := closed ++ s.closed } else s
           let req : Request := { hostname := entryKey k }
           let q : Query := if e.pool then .dns { hostname := entryKey k } else .web req
           let (s', t) := runQuery env s q
-          let a := if e.obsAns then outNats (t.answer env) else "_"
+          let a := if e.obsAns then outNats (t.answer.1 ++ t.answer.2) else "_"
           let z := if e.obsSize then toString s'.cache.length else "_"
-          let fin := if t.pc.isDone then "" else "!unfinished"
+          let fin := if t.pc.isDone then "" else if t.pc.isCrash then "!crash" else "!unfinished"
           (s', (a ++ ":" ++ z ++ fin) :: acc.2)
-        let (_, outs) := ((List.range entries.length).zip entries).foldl go (({} : State Nat), [])
+        let (_, outs) := ((List.range entries.length).zip entries).foldl go (({} : State Nat Unit), [])
         -- the stateless reference (fault-free histories only): `pureAnswer` of each query, and the cache
         -- holds exactly the retrievable indices among all candidates seen so far
         let specGo := fun (acc : List Int × List String) (ke : Nat × FEntry) =>
           let (k, e) := ke
           let q : Query := if e.pool then .dns { hostname := entryKey k } else .web { hostname := entryKey k }
           let seen := (acc.1 ++ e.cands.filter (fun i => (env.truth i).isSome)).eraseDups
-          let a := if e.obsAns then outNats (pureAnswer env q) else "_"
+          let a := if e.obsAns then outNats ((pureAnswer env q).1 ++ (pureAnswer env q).2) else "_"
           let z := if e.obsSize then toString seen.length else "_"
           (seen, (a ++ ":" ++ z) :: acc.2)
         let spec := if withSpec then
